@@ -158,7 +158,7 @@ pub fn run(args: &[String]) -> i32 {
     let seed = arg_u64(args, "--seed", 1);
     let n = arg_u64(args, "--n", 300) as usize;
     let out = arg_val(args, "--out").expect("--out");
-    let prelude = "From Coq Require Import List NArith ZArith Bool.\nFrom YV Require Import Gen.CapiEffects Capi.LastError Capi.CapiCheck.\nImport ListNotations.\n";
+    let prelude = "From Coq Require Import List NArith ZArith Bool.\nFrom YV Require Import Gen.CapiEffects Capi.LastError Capi.Pending Capi.CapiCheck.\nImport ListNotations.\n";
     let mut shards = Shards::new(Path::new(&out), prelude, 40);
     let mut stats = Stats::default();
     let mut distinct = std::collections::HashSet::new();
